@@ -99,7 +99,8 @@ def read_traj(path):
 
 NAT = 34
 CV_KINDS = [("distance", "scalar"), ("angle", "scalar"), ("distanceVec", "vec3"), ("distanceDir", "unit3"),
-            ("orientation", "quat"), ("cartesian", "vector"), ("distancePairs", "vector"), ("ext", "scalar")]
+            ("orientation", "quat"), ("cartesian", "vector"), ("distancePairs", "vector"), ("ext", "scalar"),
+            ("zperiodic", "scalar")]
 
 
 def make_cv(rng, sysm, pool, name, kind):
@@ -109,6 +110,12 @@ def make_cv(rng, sysm, pool, name, kind):
     extra = []
     ext = (kind == "ext")
     ctype = "distance" if ext else kind
+    copts = {}
+    if kind == "zperiodic":
+        # a periodic scalar whose value crosses the seam of its interval every few steps (period of the order of the motion)
+        ctype = "distanceZ"
+        copts = {"period": rng.choice([0.5, 1.0, 2.0]), "axis": "axis"}
+        flags["vel"] = True
     if ctype in ("distance", "angle") and not ext and rng.random() < 0.6:
         flags["ft"] = True
     if ext:
@@ -125,9 +132,10 @@ def make_cv(rng, sysm, pool, name, kind):
         extra.append("outputTotalForce on")
     if flags["fa"]:
         extra.append("outputAppliedForce on")
-    cv = corpus.make_colvar(rng, sysm, pool, name, ctype, {}, extra_lines=extra)
+    cv = corpus.make_colvar(rng, sysm, pool, name, ctype, copts, extra_lines=extra)
     cv["flags"] = flags
     cv["ext"] = ext
+    cv["zperiod"] = copts.get("period")
     return cv
 
 
@@ -137,6 +145,8 @@ def make_bias(rng, cv, bname, allow_centers=True):
     kinds = ["harmonic", "harmonic_moving"]
     if vt == "scalar":
         kinds += ["walls", "linear", "meta", "harmonic_kmoving"]
+    if cv.get("zperiod"):
+        kinds = ["harmonic", "meta"]          # (walls and linear biases are refused on periodic variables)
     kind = rng.choice(kinds)
     en = rng.random() < 0.75
     b = dict(name=bname, cv=cv["name"], kind=kind, energy=en, centers=False, work=False)
@@ -543,6 +553,17 @@ def expected_value(label, e, state, pe, cvnames, bnames):
         if kind == "vr":
             return (cv.get("v") if "ext" in cv else None), "ext_velocity"
         if kind == "v":
+            if "ext" not in cv and cvnames.get(nm, {}).get("zperiod"):
+                # periodic scalar: the finite-difference velocity is the shortest difference on the circle between the values of
+                # two consecutive steps (dt = 1), recomputed here from the values
+                P = cvnames[nm]["zperiod"]
+                if e["rel"] == 0:
+                    return [0.0], "vfd_periodic"
+                if pe is None or nm not in pe.get("cv", {}) or not cv.get("on") or not pe["cv"][nm].get("on"):
+                    return None, "vfd_periodic"
+                d = fl(cv["x"][0]) - fl(pe["cv"][nm]["x"][0])
+                d -= P * math.floor(d / P + 0.5)
+                return [d], "vfd_periodic"
             if "ext" not in cv:
                 return cv.get("v"), "velocity"
             # finite-difference velocity of the actual value (dt = 1): not part of the step event, recomputed
